@@ -20,7 +20,9 @@ use std::sync::atomic::{AtomicU64, Ordering};
 use std::sync::{Arc, Mutex};
 use std::task::{Context, Poll};
 
-const VERIF_DIR: &str = "/verif";
+fn verif_dir() -> String {
+    std::env::var("VERIF_HOME").unwrap_or_else(|_| "/verif".to_string())
+}
 
 // Per-execution state. A worker process runs one shuttle Runner, whose executions all happen on
 // one OS thread at a time, so plain process-wide statics are per-execution when reset at the start.
@@ -320,9 +322,9 @@ fn parent(args: &[String]) -> i32 {
     let start = std::time::Instant::now();
     let started_at = std::time::SystemTime::now();
     let exe = std::env::current_exe().unwrap();
-    let tmp = format!("{VERIF_DIR}/fc-shuttle/target/tmp-{}", std::process::id());
+    let tmp = format!("{}/fc-shuttle/target/tmp-{}", verif_dir(), std::process::id());
     let _ = std::fs::create_dir_all(&tmp);
-    let replay_dir = format!("{VERIF_DIR}/replays");
+    let replay_dir = format!("{}/replays", verif_dir());
     let _ = std::fs::create_dir_all(&replay_dir);
     // worker list: (scheduler, iterations)
     let per = if thorough { 4_000_000 } else { 100_000 };
@@ -437,8 +439,8 @@ fn parent(args: &[String]) -> i32 {
         "wall_s": wall,
         "violations": violations
     });
-    let _ = std::fs::create_dir_all(format!("{VERIF_DIR}/evidence"));
-    std::fs::write(format!("{VERIF_DIR}/evidence/C19.json"), serde_json::to_string_pretty(&evidence).unwrap()).expect("write evidence");
+    let _ = std::fs::create_dir_all(format!("{}/evidence", verif_dir()));
+    std::fs::write(format!("{}/evidence/C19.json", verif_dir()), serde_json::to_string_pretty(&evidence).unwrap()).expect("write evidence");
     println!("C19 tier={tier} executions={executions} nontrivial_distinct={} distinct_all={} parked_waiters={parked} violations={violations} wall={wall:.1}s", nt.len(), all.len());
     if executions == 0 {
         return 2;
@@ -453,7 +455,7 @@ fn run_miri() -> serde_json::Value {
     let start = std::time::Instant::now();
     let out = std::process::Command::new("cargo")
         .args(["+nightly", "miri", "run", "--offline", "-q"])
-        .current_dir(format!("{VERIF_DIR}/fc-miri"))
+        .current_dir(format!("{}/fc-miri", verif_dir()))
         .env("MIRIFLAGS", format!("-Zmiri-many-seeds=0..{seeds} -Zmiri-preemption-rate=0.1 -Zmiri-disable-isolation"))
         .env("CARGO_NET_OFFLINE", "true")
         .output();
